@@ -948,12 +948,84 @@ class AutoDSF(DSF):
         return super().call(c, st)
 
 
+def discover_ctor_derived(model: Model, cls: ClassInfo) -> Dict[str, Set[str]]:
+    """Attributes that are assigned ONLY in constructors, from an expression reading other attributes of self that some
+    non-constructor method also writes, and that are read outside the constructors: values computed once from settable
+    state (e.g. a cached term of a formula).  Holders of sub-objects (value = construction of a repo class) are excluded -
+    their coherence is a per-attribute matter handled by the hand tables."""
+    asg: Dict[str, List[Tuple[FuncInfo, ast.AST]]] = {}
+    read_outside: Set[str] = set()
+    for k in model.mro(cls):
+        for d in (k.methods, k.setters, k.getters):
+            for f in d.values():
+                sn = f.self_name
+                if not sn:
+                    continue
+                for n in ast.walk(f.node):
+                    tg, val = [], None
+                    if isinstance(n, ast.Assign):
+                        tg, val = n.targets, n.value
+                    elif isinstance(n, ast.AnnAssign) and n.value is not None:
+                        tg, val = [n.target], n.value
+                    elif isinstance(n, ast.AugAssign):
+                        tg, val = [n.target], n.value
+                    for t in tg:
+                        a = is_self_attr(t, sn)
+                        if a:
+                            asg.setdefault(a, []).append((f, val))
+                        elif isinstance(t, ast.Subscript) and is_self_attr(t.value, sn):
+                            asg.setdefault(t.value.attr, []).append((f, val))
+                    if f.name != '__init__' and isinstance(n, ast.Attribute) and isinstance(n.ctx, ast.Load) and is_self_attr(n, sn):
+                        read_outside.add(n.attr)
+    mutable = {a for a, l in asg.items() if any(f.name != '__init__' for f, _ in l)}
+    probe = DSF(model, cls, Family('probe', [cls.name], []))
+    out: Dict[str, Set[str]] = {}
+    for a, l in asg.items():
+        if a not in read_outside or not all(f.name == '__init__' for f, _ in l):
+            continue
+        deps: Set[str] = set()
+        ok = True
+        for f, val in l:
+            if isinstance(val, ast.Constant):
+                continue
+            if isinstance(val, ast.Call) and model.resolve_class_expr(f.module, val.func) is not None:
+                ok = False          # sub-object holder
+                break
+            probe.fn_stack = [f]
+            probe.locals = {}
+            for n in walk_no_nested(f.node):
+                if isinstance(n, ast.Assign) and len(n.targets) == 1 and isinstance(n.targets[0], ast.Name):
+                    probe.locals[n.targets[0].id] = frozenset(probe.expr_reads(n.value))
+            r = probe.expr_reads(val) - {a}
+            # a constructor parameter that is also stored verbatim into an attribute stands for that attribute
+            alias = {}
+            for n in walk_no_nested(f.node):
+                tg2, v2 = [], None
+                if isinstance(n, ast.Assign):
+                    tg2, v2 = n.targets, n.value
+                elif isinstance(n, ast.AnnAssign) and n.value is not None:
+                    tg2, v2 = [n.target], n.value
+                if isinstance(v2, ast.Name) and v2.id in f.params:
+                    for t2 in tg2:
+                        x = is_self_attr(t2, f.self_name or 'self')
+                        if x:
+                            alias[v2.id] = x
+            r |= {alias[n.id] for n in ast.walk(val) if isinstance(n, ast.Name) and n.id in alias} - {a}
+            r &= mutable
+            probe.fn_stack = []
+            deps |= r
+        if ok and deps:
+            out[a] = deps
+    return out
+
+
 def auto_memo_check(ctx, rule: str, module_paths: List[str], skip_classes: Optional[Set[str]] = None) -> int:
     """Obligations: no auto-discovered lazy memo of any class defined in module_paths is DIRTY at a normal exit of a
     public entry point.  Classes without memos contribute one trivial instance each (so the rule is never vacuous)."""
     M: Model = ctx.model
     skip = skip_classes or set()
     n_memos = 0
+    memos_for_report: Dict[str, Dict[str, Any]] = {}
     for path in module_paths:
         mod = M.module(path)
         for cname, cls in sorted(mod.classes.items()):
@@ -962,13 +1034,18 @@ def auto_memo_check(ctx, rule: str, module_paths: List[str], skip_classes: Optio
             memos = discover_memos_auto(M, cls)
             # memos inherited from classes handled elsewhere are skipped too
             memos = {a: i for a, i in memos.items() if not any(f.cls is not None and f.cls.name in skip for f in i['fillers'])}
-            ctx.instance(rule, '%s:memos=%d' % (cname, len(memos)))
-            if not memos:
+            ctor = {a: d for a, d in discover_ctor_derived(M, cls).items() if a not in memos}
+            ctx.instance(rule, '%s:memos=%d,ctor-derived=%d' % (cname, len(memos), len(ctor)))
+            if not memos and not ctor:
                 ctx.obligation(rule, cname, True, None, nontrivial=False)
                 continue
-            n_memos += len(memos)
-            fam = Family('auto:' + cname, [cname], [Spec(a, 'lazy', set(), [f.qualname for f in i['fillers']], 'auto-discovered')
-                                                     for a, i in memos.items()])
+            n_memos += len(memos) + len(ctor)
+            fam = Family('auto:' + cname, [cname],
+                         [Spec(a, 'lazy', set(), [f.qualname for f in i['fillers']], 'auto-discovered') for a, i in memos.items()] +
+                         [Spec(a, 'eager', d, ['%s.__init__' % cname], 'computed once in the constructor from settable state')
+                          for a, d in ctor.items()])
+            for a in ctor:
+                memos_for_report[a] = {'fillers': [], 'covered': set()}
             for name, fn in public_entries(M, cls):
                 a = AutoDSF(M, cls, fam, memos)
                 st0 = a.init_state(NONE if name == '__init__' else CLEAN)
@@ -983,9 +1060,10 @@ def auto_memo_check(ctx, rule: str, module_paths: List[str], skip_classes: Optio
                                    if nontrivial else None, nontrivial=nontrivial)
                     if not ok:
                         owner = '%s.%s' % (fn.cls.name if fn.cls else '?', name)
-                        ctx.violation(rule, owner, 'cached value %s (filled lazily in %s from %s) may be stale at the normal exit of %s '
+                        fillers = [f.qualname for f in memos[d]['fillers']] if d in memos else ['%s.__init__ (computed once)' % cname]
+                        ctx.violation(rule, owner, 'cached value %s (filled in %s from %s) may be stale at the normal exit of %s '
                                       '(receiver class %s): %s:%s `%s` changes a source without resetting it'
-                                      % (d, [f.qualname for f in memos[d]['fillers']], sorted(a.tdeps[d]), owner, cname,
+                                      % (d, fillers, sorted(a.tdeps[d]), owner, cname,
                                          cause[0] if cause else '?', cause[1] if cause else '?', cause[2] if cause else '?'),
                                       path=fn.path, line=fn.lineno,
                                       witness={'receiver': cname, 'memo': d, 'deps': sorted(a.tdeps[d]), 'dirtied_by': cause}, operand=d)
